@@ -306,12 +306,24 @@ def run(ctx, res):
             cm = g
     if cm is None:
         raise M.MissingAnchor("type_checker check_match")
+    # the vector handed to unify_all (whatever it is called)
+    vec_locals = set()
+    for bi, t in cm.calls():
+        if (M.callee_name(t) or "").endswith("unify_all") and t["args"]:
+            r = cm.root_of(t["args"][0], through_named=False)
+            for _ in range(4):
+                if r[0] == "call" and r[2]["args"]:
+                    r = cm.root_of(r[2]["args"][0], through_named=False)
+                else:
+                    break
+            if r[0] == "place":
+                vec_locals.add(r[1]["l"])
     pushes = []
     for bi, t in cm.calls():
         n = M.callee_name(t) or ""
         if n.endswith("::push") and t["args"]:
             r = cm.root_of(t["args"][0], through_named=False)
-            if r[0] == "place" and cm.local_name(r[1]["l"]) == "case_tys":
+            if r[0] == "place" and r[1]["l"] in vec_locals:
                 pushes.append(bi)
     res.floor("JOIN-INPUT-COVER", "case_tys.push sites in check_match", len(pushes), 1)
     best = None
